@@ -80,7 +80,8 @@ class _Canonical(ast.NodeTransformer):
         is the guard, the result is the fall-through);
     (i) `while True:` whose first statement is the guard `if c: raise ... / return X` (no `break` of that loop, no `else`)
         -> `while not c: REST` followed by the raise / return;
-    (j) `cast(T, e)` -> `e` (typing.cast is the identity at run time)."""
+    (j) `cast(T, e)` -> `e` (typing.cast is the identity at run time);
+    (k) `obj.a = X if c else Y` with a call in an arm -> `if c: obj.a = X  else: obj.a = Y`."""
 
     _OPS = (ast.Add, ast.Sub, ast.Mult, ast.BitOr, ast.BitAnd, ast.FloorDiv)
 
@@ -103,6 +104,17 @@ class _Canonical(ast.NodeTransformer):
 
     def visit_Assign(self, n: ast.Assign) -> Any:
         self.generic_visit(n)
+        # (k) `obj.a = X if c else Y` where an arm makes a call -> `if c: obj.a = X  else: obj.a = Y` (which call is made is
+        # control flow; path rules see it as such)
+        if (len(n.targets) == 1 and isinstance(n.targets[0], (ast.Attribute, ast.Subscript)) and isinstance(n.value, ast.IfExp)
+                and any(isinstance(x, (ast.Call, ast.Await)) for arm in (n.value.body, n.value.orelse) for x in ast.walk(arm))
+                and not any(isinstance(x, (ast.Call, ast.Await, ast.NamedExpr)) for x in ast.walk(n.targets[0]))):
+            import copy as _copy
+
+            self.rewrites += 1
+            a = ast.copy_location(ast.Assign(targets=[_copy.deepcopy(n.targets[0])], value=n.value.body), n)
+            b = ast.copy_location(ast.Assign(targets=[_copy.deepcopy(n.targets[0])], value=n.value.orelse), n)
+            return ast.copy_location(ast.If(test=n.value.test, body=[a], orelse=[b]), n)
         if len(n.targets) == 1 and isinstance(n.value, ast.BinOp) and isinstance(n.value.op, self._OPS):
             t = n.targets[0]
             simple = isinstance(t, ast.Name) or (isinstance(t, ast.Attribute) and isinstance(t.value, ast.Name))
